@@ -126,6 +126,78 @@ fn conflation_pass(prop: &str, protos: &[Proto]) -> Acc {
     Acc::merge_all(accs)
 }
 
+/// footers (C05) / assertions (C06) whose length lies on both sides of the sizes at which an implementation
+/// might switch strategy (stack buffer, chunk, length-field width): three consecutive lengths (all residues
+/// mod 3 of the base64 form) around each listed size. Built with T: accepted with T, rejected with the nearest
+/// other texts, and (C05) with the token's footer segment re-spelled.
+fn size_ladder_pass(prop: &str, protos: &[Proto], quick: bool) -> Acc {
+    let sizes: Vec<usize> = if quick { vec![8_192, 12_288, 16_384, 65_536] } else { vec![1_024, 2_048, 4_096, 8_192, 12_288, 16_384, 24_576, 32_768, 49_152, 65_536, 131_072, 1_048_576] };
+    let units: Vec<(Proto, Layer, usize)> = units_proto_layer(protos).into_iter().flat_map(|(p, l)| sizes.clone().into_iter().map(move |s| (p, l, s))).collect();
+    let accs = par_units(&units, |(p, l, size)| {
+        let mut acc = Acc::default();
+        let key = domains::key_pool(*p)[0].clone();
+        let seed = seed_for(*p);
+        for len in [*size - 1, *size, *size + 1, *size + 2] {
+            // printable ASCII with a period that is co-prime to 3 and 4, no two neighbours equal
+            let t: String = (0..len).map(|i| (b'!' + ((i * 7 + i / 89) % 89) as u8) as char).collect();
+            let (f, a) = if prop == "C05" { (Some(t.clone()), None) } else { (Some("f".to_string()), Some(t.clone())) };
+            let case = IssueCase::new(*p, *l, &key, seed.as_deref(), "{\"data\":\"x\"}", &f, &a);
+            let Some(token) = issue_with_control(&case, &mut acc) else { continue };
+            acc.choice_points += 1;
+            let with = |v: Option<String>| {
+                let mut pres = Presentation::of(&case, &token);
+                if prop == "C05" {
+                    pres.footer = v;
+                } else {
+                    pres.assertion = v;
+                }
+                pres
+            };
+            check(prop, "large-text:same", &case, &token, &with(Some(t.clone())), Some(true), &mut acc);
+            let mut last = t.clone();
+            last.pop();
+            last.push('~');
+            let mut first = t.clone();
+            first.replace_range(0..1, "~");
+            let mut mid = t.clone();
+            mid.replace_range(len / 2..len / 2 + 1, "~");
+            for (tag, v) in [
+                ("large-text:last-byte-changed", Some(last)),
+                ("large-text:first-byte-changed", Some(first)),
+                ("large-text:middle-byte-changed", Some(mid)),
+                ("large-text:one-byte-shorter", Some(t[..len - 1].to_string())),
+                ("large-text:one-byte-longer", Some(format!("{}x", t))),
+                ("large-text:half", Some(t[..len / 2].to_string())),
+                ("large-text:none", None),
+            ] {
+                check(prop, tag, &case, &token, &with(v), Some(false), &mut acc);
+            }
+            if prop == "C05" {
+                if let Some(seg) = footer_segment(&token) {
+                    let head = &token[..token.len() - seg.len()];
+                    let mut respelled: Vec<String> = vec![format!("{}=", seg), format!("{}==", seg), format!("{}{}", seg, "=".repeat((4 - seg.len() % 4) % 4)), seg[..seg.len() - 1].to_string(), format!("{}A", seg)];
+                    if let Some(v) = seg.as_bytes().last().and_then(|c| b64::val(*c)) {
+                        // the unused low bits of the last character set (same decoded bytes under a lenient decoder)
+                        for extra in 1..4u8 {
+                            let nv = v | extra;
+                            if nv != v && seg.len() % 4 != 0 {
+                                respelled.push(format!("{}{}", &seg[..seg.len() - 1], b64::ALPHABET[nv as usize] as char));
+                            }
+                        }
+                    }
+                    respelled.retain(|r| r != seg);
+                    for r in respelled {
+                        let t2 = format!("{}{}", head, r);
+                        check(prop, "large-text:footer-segment-respelled", &case, &token, &Presentation::of(&case, &t2), None, &mut acc);
+                    }
+                }
+            }
+        }
+        acc
+    });
+    Acc::merge_all(accs)
+}
+
 /// object-reuse histories (second build, reconfigured / re-keyed parser) for the binding this property owns
 fn reuse_pass(prop: &str, protos: &[Proto]) -> Acc {
     let accs = par_units(protos, |p| {
@@ -441,6 +513,7 @@ pub fn run_c05(tier: &str) -> i32 {
     let mut merged = Acc::merge_all(accs);
     merged.merge(reuse_pass("C05", &Proto::ALL));
     merged.merge(conflation_pass("C05", &Proto::ALL));
+    merged.merge(size_ladder_pass("C05", &Proto::ALL, quick));
     finish(
         run,
         merged,
@@ -535,6 +608,7 @@ pub fn run_c06(tier: &str) -> i32 {
     let mut merged = Acc::merge_all(accs);
     merged.merge(reuse_pass("C06", &protos));
     merged.merge(conflation_pass("C06", &protos));
+    merged.merge(size_ladder_pass("C06", &protos, quick));
     finish(
         run,
         merged,
